@@ -157,16 +157,40 @@ func checkLexerSwitch(p *Program, r *Result, g *goLayouts) {
 				}
 				// if tok, ok := table[opcode]; ok { return tok, record, nil }
 				as, ok := x.Init.(*ast.AssignStmt)
-				if !ok || len(as.Lhs) != 2 || len(as.Rhs) != 1 {
-					continue
-				}
-				okId, _ := as.Lhs[1].(*ast.Ident)
-				cid, _ := x.Cond.(*ast.Ident)
-				if okId == nil || cid == nil || okId.Name != cid.Name {
-					continue
-				}
 				var lit *ast.CompositeLit
-				switch rhs := as.Rhs[0].(type) {
+				if !ok {
+					// if <test on table[opcode]> { return table[opcode].tok, record, nil }: any index of a package-level table
+					// by the opcode inside the condition, with the body returning
+					if x.Init == nil && armOf(x.Body).returns {
+						ast.Inspect(x.Cond, func(m ast.Node) bool {
+							if ix, ok := m.(*ast.IndexExpr); ok && lit == nil {
+								if tid, ok := ix.X.(*ast.Ident); ok && isOpcodeExpr(stripParenConv(g, ix.Index)) {
+									lit = packageMapLiteral(g, tid)
+								}
+							}
+							return true
+						})
+					}
+					if lit == nil {
+						continue
+					}
+				}
+				if lit == nil && (len(as.Lhs) != 2 || len(as.Rhs) != 1) {
+					continue
+				}
+				var okId, cid *ast.Ident
+				if lit == nil {
+					okId, _ = as.Lhs[1].(*ast.Ident)
+					cid, _ = x.Cond.(*ast.Ident)
+					if okId == nil || cid == nil || okId.Name != cid.Name {
+						continue
+					}
+				}
+				var rhs0 ast.Expr
+				if lit == nil {
+					rhs0 = as.Rhs[0]
+				}
+				switch rhs := rhs0.(type) {
 				case *ast.IndexExpr:
 					if tid, _ := rhs.X.(*ast.Ident); tid != nil && isOpcodeExpr(rhs.Index) {
 						lit = packageMapLiteral(g, tid)
@@ -468,7 +492,11 @@ func checkAttachmentTail(p *Program, r *Result) {
 		return
 	}
 	ok := false
-	for _, ci := range callsIn(fn, func(ci ssa.CallInstruction) bool { return calleeRepoName(ci) == "mcap.skipReader" }) {
+	var skips []ssa.CallInstruction
+	for _, rf := range regionOf(p, fn, 3) {
+		skips = append(skips, callsIn(rf, func(ci ssa.CallInstruction) bool { return calleeRepoName(ci) == "mcap.skipReader" })...)
+	}
+	for _, ci := range skips {
 		a := ci.Common().Args
 		// skipReader(limitReader.R, limitReader.N): both loaded from the same LimitedReader
 		if loadOfFieldIface(a[0], "LimitedReader", "R") && loadOfField(a[1], "LimitedReader", "N") {
